@@ -295,6 +295,22 @@ def check(prog, run):
             run.report(r, "%s:Executor.field_resolver:store" % EXE, fr.where(c), "the middleware-wrapped resolver is not the value stored in / returned from the cache")
         if ast.unparse(c.args[1]) != "self._middlewares":
             run.report(r, "%s:Executor.field_resolver:which-middlewares" % EXE, fr.where(c), "not the configured middlewares")
+    # path form: with middlewares configured, every cache-miss execution applies the chain before storing/returning
+    from .. import boolx
+    try:
+        _ev, exits = boolx.walk_under(fr.node, lambda t: True if t == "self._middlewares" else None)
+    except ValueError as e:
+        raise AnalysisError("C16.H5: %s" % e)
+    miss = [(k, st, env) for k, st, env in exits if k == "return" and not (isinstance(st.value, ast.Subscript) and "_resolver_cache" in ast.unparse(st.value))]
+    r.instance("field_resolver: %d cache-miss return paths with middlewares configured" % len(miss))
+    shapes.require(bool(miss), "C16.H5: no cache-miss return path found in field_resolver")
+    for k, st, env in miss:
+        if not any(isinstance(c.func, ast.Name) and c.func.id == "apply_middlewares" for c in env.get(boolx.CALLS, ())):
+            cond = ", ".join("%s=%s" % kv for kv in sorted(env.items()) if kv[0] not in (boolx.CALLS, boolx.STMTS))
+            run.report(r, "%s:Executor.field_resolver:path-without-middlewares" % EXE, fr.where(st),
+                       "with middlewares configured, field_resolver can return a resolver that did not go through apply_middlewares "
+                       "(when %s): those fields are resolved outside every middleware" % cond)
+            break
     for mod, q in ((EXE, "Executor.resolve_field"), (BEXE, "BlockingExecutor.resolve_field")):
         f = prog.get_func(mod, q)
         src = [n for n in own_nodes(f.node) if isinstance(n, ast.Assign) and ast.unparse(n.targets[0]) == "resolver"]
